@@ -21,6 +21,7 @@ ROOT == <<0>>           \* pseudo task hosting the outermost command
 NREG == 4               \* registers per task
 NSTR == 2               \* stream slots per task
 NHND == 3               \* join-handle slots per task
+NCH  == 2               \* task-to-task channel slots per task
 
 CONSTANT Sched   \* "any": any ready task may be polled next (the property-level model)
                  \* "fifo": the queue discipline of the code (a refinement of "any"; linear-time validation)
@@ -59,6 +60,7 @@ Src(T, s) == IF Has(s, "c") THEN s.c ELSE T.regs[s.r]
 ZeroRegs == [i \in 1..NREG |-> 0]
 NoStreams == [i \in 1..NSTR |-> [rid |-> NONE, tag |-> 0, val |-> 0, l |-> FALSE]]
 NoHandles == [i \in 1..NHND |-> NONE]
+NoChans == [i \in 1..NCH |-> NONE]
 
 \* flatten_unordered: the outer stream has been polled (init) / has ended (odone); inner: the streams
 \* opened so far, [rid, st, rrid] with st "new" (not polled yet) | "wait" (awaiting its stream) | "req"
@@ -77,6 +79,7 @@ NewTaskL(cmd, code, regs, handles, noEvict, legacy) ==
    ls |-> <<>>, yielded |-> FALSE, noEvict |-> noEvict, inPoll |-> FALSE, why |-> "", legacy |-> legacy,
    script |-> FALSE,     \* script: the future is an interpreted script of the harness (it carries a drop token)
    root |-> FALSE,       \* root: the task Command::new created -- it shares the command's abort flag
+   chans |-> NoChans,    \* task-to-task channels this task's environment holds (keys into reqs)
    flat |-> NoFlat,      \* state of the task's flatten_unordered (StreamBuilder::then_stream), see ExecFlat
    flatGen |-> "none"]   \* which poll's waker the flatten_unordered holds: "none" | "stale" | "latest"
 
@@ -104,6 +107,15 @@ NewReqL(kind, owner, tag, val, legacy) ==
                   \* its waker (reg = "flat") is a waker of the combinator, not of the task
 
 NewReq(kind, owner, tag, val) == NewReqL(kind, owner, tag, val, FALSE)
+
+\* A task-to-task channel (futures mpsc, unbounded) lives in the same table: chan is its queue, tx the
+\* tasks that hold a sender (closed when empty), owner/reg the waker its receiving end holds (the one of
+\* the last task that polled it Pending).  The shell never sees it.
+NewChan(t) ==
+  [kind |-> "chan", kind0 |-> "chan", owner |-> NONE, tag |-> 0, val |-> 0, legacy |-> FALSE,
+   held |-> FALSE, senderAlive |-> FALSE, recvAlive |-> FALSE, reg |-> "none", chan |-> <<>>, nres |-> 0,
+   fl |-> -1, tx |-> {t}]
+IsChan(q) == q.kind0 = "chan"
 
 \* n: position in the owning task's emission order (not observable in itself; fixes per-task order)
 EffItem(rid, tag, val, n) == [kind |-> "eff", o |-> rid, tag |-> tag, val |-> val, n |-> n]
@@ -246,6 +258,16 @@ Blocked(S, t) ==
 ---------------------------------------------------------------------------
 (* Waking and removing tasks *)
 
+\* a set of request keys as a sequence in a fixed order
+RECURSIVE SetToSortSeq3(_)
+SetToSortSeq3(X) ==
+  IF X = {} THEN <<>>
+  ELSE LET \* (channel keys: by slot first, the order in which a dropped environment lets go of them)
+           m == CHOOSE x \in X : \A y \in X :
+                  \/ x[3] > y[3]
+                  \/ (x[3] = y[3] /\ (x[1] < y[1] \/ (x[1] = y[1] /\ x[2] <= y[2])))
+       IN <<m>> \o SetToSortSeq3(X \ {m})
+
 \* host tasks of t as a sequence, innermost first
 RECURSIVE HostSeq(_, _)
 HostSeq(S, t) == LET h == HostOf(S, t) IN IF h = ROOT THEN <<>> ELSE <<h>> \o HostSeq(S, h)
@@ -309,11 +331,19 @@ Remove(S, K0, notify, why) ==
                                       !.reg = IF S.reqs[r].legacy \/ S.reqs[r].fl >= 0 THEN "none" ELSE @]
                ELSE S.reqs[r]]
       J1 == SelectSeq(S.joinreg, LAMBDA j : j.k \notin K /\ j.w \notin K)
-      S1 == [S EXCEPT !.tasks = T1, !.cmds = C1, !.reqs = R1, !.joinreg = J1,
+      \* the dropped tasks' senders go; a channel that loses its last sender closes, which wakes its receiver
+      closing == {r \in DOMAIN S.reqs : IsChan(S.reqs[r]) /\ S.reqs[r].tx # {} /\ S.reqs[r].tx \subseteq K}
+      cw == LET ks == SetToSortSeq3({r \in closing : S.reqs[r].reg # "none" /\ S.reqs[r].owner \notin K}) IN
+            [i \in DOMAIN ks |-> S.reqs[ks[i]].owner]
+      R2 == [r \in DOMAIN R1 |->
+               IF IsChan(R1[r])
+               THEN [R1[r] EXCEPT !.tx = @ \ K, !.reg = IF r \in closing THEN "none" ELSE @]
+               ELSE R1[r]]
+      S1 == [S EXCEPT !.tasks = T1, !.cmds = C1, !.reqs = R2, !.joinreg = J1,
                       !.ready = @ \ K,
                       !.rq = [c \in DOMAIN @ |-> SelectSeq(@[c], LAMBDA t : t \notin K)],
                       !.sq = [c \in DOMAIN @ |-> SelectSeq(@[c], LAMBDA t : t \notin K)]]
-  IN Wake(S1, jw)
+  IN Wake(S1, jw \o cw)
 
 ---------------------------------------------------------------------------
 (* Leaves: the things a task can wait on *)
@@ -323,11 +353,12 @@ LeavesOf(I) ==
   CASE I.op = "req"   -> << [k |-> "req", tag |-> I.tag, src |-> I.src, l |-> Fld(I, "l", FALSE)] >>
     [] I.op = "next"  -> << [k |-> "next", s |-> I.s] >>
     [] I.op = "joinh" -> << [k |-> "joinh", h |-> I.h] >>
+    [] I.op = "recv"  -> << [k |-> "recv", c |-> I.c] >>
     [] OTHER          -> I.leaves        \* join / select
 
 ModeOf(I) == IF I.op = "select" THEN "any" ELSE "all"
 
-IsWait(I) == I.op \in {"req", "next", "joinh", "join", "select"}
+IsWait(I) == I.op \in {"req", "next", "joinh", "recv", "join", "select"}
 
 \* number of inline request leaves strictly before position i
 RECURSIVE ReqsBefore(_, _)
@@ -340,6 +371,7 @@ InitLeaves(t, T, L) ==
   [i \in DOMAIN L |->
      [rid  |-> CASE L[i].k = "req"  -> <<t[1], t[2], T.seq + ReqsBefore(L, i)>>
                  [] L[i].k = "next" -> T.streams[L[i].s].rid
+                 [] L[i].k = "recv" -> T.chans[L[i].c]
                  [] OTHER           -> NONE,
       done |-> FALSE, val |-> 0]]
 
@@ -350,6 +382,7 @@ LeafReady(S, T, L, ls, i) ==
     [] L[i].k = "next"  -> /\ ls[i].rid \in DOMAIN S.reqs
                            /\ \/ S.reqs[ls[i].rid].chan # <<>>
                               \/ ~S.reqs[ls[i].rid].senderAlive   \* closed and empty: yields None
+    [] L[i].k = "recv"  -> S.reqs[ls[i].rid].chan # <<>> \/ S.reqs[ls[i].rid].tx = {}
 LeafVal(S, L, ls, i) ==
   IF L[i].k = "joinh" THEN 0
   ELSE IF S.reqs[ls[i].rid].chan # <<>> THEN Head(S.reqs[ls[i].rid].chan) ELSE 0   \* 0 = None
@@ -406,11 +439,14 @@ ExecWait(S, t, I) ==
       \* existing requests touched by this poll
       R1 == [r \in DOMAIN S.reqs \cup ridsNew |->
               IF r \in ridsNew THEN newReq(idxOf(r))
-              ELSE IF \E i \in DOMAIN L : polled(i) /\ L[i].k \in {"req", "next"} /\ ls0[i].rid = r
-                   THEN LET q == S.reqs[r] i == idxOf(r) IN
+              ELSE IF \E i \in DOMAIN L : polled(i) /\ L[i].k \in {"req", "next", "recv"} /\ ls0[i].rid = r
+                   THEN LET q == S.reqs[r] IN
                         IF q.chan # <<>>
                         THEN [q EXCEPT !.chan = Tail(@),
                                        !.recvAlive = IF q.kind0 = "once" THEN FALSE ELSE @]
+                        \* a channel's receiving end keeps the waker of whoever polled it last
+                        ELSE IF IsChan(q)
+                        THEN (IF q.tx # {} THEN [q EXCEPT !.reg = "latest", !.owner = t] ELSE q)
                         ELSE IF q.senderAlive \/ (q.legacy /\ q.kind0 = "once")
                              THEN [q EXCEPT !.reg = "latest"]
                         \* closed and empty: a one-shot stays pending without a waker; a capability-API
@@ -446,7 +482,7 @@ ExecWait(S, t, I) ==
                     THEN [r \in 1..NREG |->
                             IF r = I.dst THEN ls1[win].val
                             ELSE IF r = I.idx THEN win ELSE T.regs[r]]
-                    ELSE IF I.op \in {"req", "next"}
+                    ELSE IF I.op \in {"req", "next", "recv"}
                          THEN [T.regs EXCEPT ![I.dst] = ls1[1].val]
                          ELSE IF I.op = "joinh" THEN T.regs
                          ELSE [r \in 1..NREG |->
@@ -454,7 +490,7 @@ ExecWait(S, t, I) ==
                                  THEN ls1[CHOOSE i \in DOMAIN dsts : dsts[i] = r].val
                                  ELSE T.regs[r]]
       \* a stream that ended sends the single `next` to its else branch
-      ended == I.op = "next" /\ complete /\ ls1[1].val = 0
+      ended == I.op \in {"next", "recv"} /\ complete /\ ls1[1].val = 0
       pc1 == IF ~complete THEN T.pc ELSE IF ended THEN I.else ELSE T.pc + 1
       T1 == [T EXCEPT !.ls = IF complete THEN <<>> ELSE ls1,
                       !.regs = regs1, !.pc = pc1, !.seq = @ + nreq, !.en = @ + Cardinality(newR)]
@@ -463,6 +499,30 @@ ExecWait(S, t, I) ==
       S3 == AddOut(S2, T.cmd, newItems)
   IN [S |-> IF topItems = {} THEN S3 ELSE AddOut(S3, TopCmd(S3), topItems),
       oc |-> IF complete THEN "cont" ELSE "pending"]
+
+\* A waker that outlived its task carries the slab key of that task (see Resolve below)
+RECURSIVE GoneLevels(_, _)
+GoneLevels(S, t) ==
+  LET c  == S.tasks[t].cmd
+      h  == S.cmds[c].host
+      me == IF S.tasks[t].st = "gone" THEN {c} ELSE {} IN
+  IF S.cmds[c].wreg /\ h # ROOT THEN me \cup GoneLevels(S, h) ELSE me
+
+AliasCands(S, r) ==
+  IF S.reqs[r].reg = "none" \/ S.reqs[r].fl >= 0 THEN {}
+  ELSE {u \in Live(S) : S.tasks[u].cmd \in GoneLevels(S, S.reqs[r].owner)}
+
+WakeOwner(S, r, al) ==
+  IF S.reqs[r].reg = "none" THEN S
+  ELSE LET i  == S.reqs[r].fl
+           t  == S.reqs[r].owner
+           \* a waker of an inner stream of flatten_unordered puts that stream's future on the
+           \* ready-to-run queue (unless it is there already) before it wakes the task
+           S0 == IF i > 0 /\ ~(\E j \in DOMAIN S.tasks[t].flat.fq : S.tasks[t].flat.fq[j] = i)
+                 THEN [S EXCEPT !.tasks[t].flat.fq = Append(@, i)] ELSE S
+           S1 == IF i >= 0 /\ S.tasks[t].flat.woken THEN [S0 EXCEPT !.reqs[r].reg = "none"]
+                 ELSE Wake([S0 EXCEPT !.reqs[r].reg = "none"], <<t>>) IN
+       IF al = NONE THEN S1 ELSE Enq1(S1, al)
 
 ---------------------------------------------------------------------------
 (* flatten_unordered (StreamBuilder::then_stream = map + flatten_unordered(None)), one poll of it   *)
@@ -588,9 +648,14 @@ ExecInstrC(S, t, ch) ==
                        !.tasks[t].seq = @ + 1])
     [] I.op = "spawn" ->
          LET k == <<t[1], I.script.tid>>
+             \* the child's environment is a clone of the parent's: it shares the channels and gets a
+             \* sender of its own for every channel the parent can still send on
+             mine == {T.chans[i] : i \in {j \in 1..NCH : T.chans[j] # NONE}}
              S1 == [S EXCEPT !.tasks = [@ EXCEPT ![t].handles[I.h] = k]
                                    @@ (k :> [NewTaskL(T.cmd, I.script.code, T.regs, T.handles, T.noEvict, T.legacy)
-                                               EXCEPT !.script = TRUE]),
+                                               EXCEPT !.script = TRUE, !.chans = T.chans]),
+                             !.reqs = [r \in DOMAIN @ |->
+                                         IF r \in mine /\ t \in @[r].tx THEN [@[r] EXCEPT !.tx = @ \cup {k}] ELSE @[r]],
                              !.ready = @ \cup {k}] IN
          adv(IF Fifo THEN [S1 EXCEPT !.sq[T.cmd] = Append(@, k)] ELSE S1)
     [] I.op = "abort" ->
@@ -602,6 +667,19 @@ ExecInstrC(S, t, ch) ==
                                  THEN [@ EXCEPT ![ck].aborted = TRUE,
                                                 ![ck].armed = @ \/ ~(ck \in CmdAnc(S, T.cmd))]
                                  ELSE (ck :> AbortStub) @@ @])
+    [] I.op = "chan" ->
+         LET k == <<t[1], t[2], 0 - I.c>> IN
+         adv([S EXCEPT !.reqs = (k :> NewChan(t)) @@ @, !.tasks[t].chans[I.c] = k])
+    [] I.op = "send" ->
+         LET k == T.chans[I.c]
+             v == IF Src(T, I.src) = 0 THEN 1 ELSE Src(T, I.src) IN
+         IF k = NONE \/ t \notin S.reqs[k].tx THEN adv(S)
+         ELSE adv(WakeOwner([S EXCEPT !.reqs[k].chan = Append(@, v)], k, NONE))
+    [] I.op = "closec" ->
+         LET k == T.chans[I.c] IN
+         IF k = NONE \/ t \notin S.reqs[k].tx THEN adv(S)
+         ELSE LET S1 == [S EXCEPT !.reqs[k].tx = @ \ {t}] IN
+              adv(IF S1.reqs[k].tx = {} THEN WakeOwner(S1, k, NONE) ELSE S1)
     [] I.op = "yield" ->
          IF T.yielded THEN adv([S EXCEPT !.tasks[t].yielded = FALSE])
          ELSE [S |-> Enq1([S EXCEPT !.tasks[t].yielded = TRUE], t), oc |-> "pending"]
@@ -874,29 +952,6 @@ ResolveResult(r) ==
 \* given to another task of the same command (or executor), which is then polled spuriously.
 \* Which task (if any) is unspecified: `al` is NONE or one live task of a command in which the walk
 \* up the chain of parent wakers passed a task that is gone.
-RECURSIVE GoneLevels(_, _)
-GoneLevels(S, t) ==
-  LET c  == S.tasks[t].cmd
-      h  == S.cmds[c].host
-      me == IF S.tasks[t].st = "gone" THEN {c} ELSE {} IN
-  IF S.cmds[c].wreg /\ h # ROOT THEN me \cup GoneLevels(S, h) ELSE me
-
-AliasCands(S, r) ==
-  IF S.reqs[r].reg = "none" \/ S.reqs[r].fl >= 0 THEN {}
-  ELSE {u \in Live(S) : S.tasks[u].cmd \in GoneLevels(S, S.reqs[r].owner)}
-
-WakeOwner(S, r, al) ==
-  IF S.reqs[r].reg = "none" THEN S
-  ELSE LET i  == S.reqs[r].fl
-           t  == S.reqs[r].owner
-           \* a waker of an inner stream of flatten_unordered puts that stream's future on the
-           \* ready-to-run queue (unless it is there already) before it wakes the task
-           S0 == IF i > 0 /\ ~(\E j \in DOMAIN S.tasks[t].flat.fq : S.tasks[t].flat.fq[j] = i)
-                 THEN [S EXCEPT !.tasks[t].flat.fq = Append(@, i)] ELSE S
-           S1 == IF i >= 0 /\ S.tasks[t].flat.woken THEN [S0 EXCEPT !.reqs[r].reg = "none"]
-                 ELSE Wake([S0 EXCEPT !.reqs[r].reg = "none"], <<t>>) IN
-       IF al = NONE THEN S1 ELSE Enq1(S1, al)
-
 Resolve(r, v, al) ==
   /\ run = NONE
   /\ reqs[r].held
